@@ -5,15 +5,15 @@ ROOT = os.path.dirname(os.path.dirname(os.path.abspath(__file__)))
 hook = subprocess.run(['git', '-C', '/repo', 'log', '--format=%h', '--grep', 'verif hook'], capture_output=True, text=True).stdout.split()
 
 TIE = {
- 'C01': 'T1 (ast of the real compiler output = model compiler) + T2 three-way: real engine = model of compiled code = reference semantics on generated programs/queries + T2p: real engine = the queried predicate interpreted from its printed Python text by the model of Python',
+ 'C01': 'T1 (ast of the real compiler output = model compiler) + T2 three-way: real engine = model of compiled code = reference semantics on generated programs/queries + T2p: real engine = the queried predicate interpreted from its printed Python text by the model of Python + T2q: CPython = the model of Python on generated scripts of the emitted subset + T5: an independent textbook Prolog interpreter on comparable histories',
  'C02': 'T3: engine.unify vs model unify vs an independent Robinson unifier on generated term pairs under active bindings',
  'C03': 'T2 at every abandonment point (close / drop / raising consumer) with the Variable weak-set hook; answers re-run',
- 'C04': 'T0 table sharedStateSites = [] regenerated from engine.py; real multi-engine interleavings (alternating, generator-step zig-zag, threads) vs solo runs; T2 per solo history',
- 'C05': 'T1 + T2 + T2p on programs with cuts in transparent positions',
- 'C06': 'T1 + T2 + T2p on programs nesting ; -> \\+ with continuations (incl. generate-and-test conditions that re-enter nested blocks); parenthesisation variants',
+ 'C04': 'T0 table sharedStateSites = [] regenerated from engine.py; real multi-engine interleavings (alternating, generator-step zig-zag, threads) vs solo runs; suspended queries of one engine stepped in zig-zag vs alone; T2 per solo history',
+ 'C05': 'T1 + T2 + T2p (+ T5: independent textbook interpreter) on programs with cuts in transparent positions',
+ 'C06': 'T1 + T2 + T2p on programs nesting ; -> \\+ with continuations (incl. generate-and-test conditions that re-enter nested blocks); parenthesisation variants; T2q: CPython = the model of Python on generated scripts of the emitted subset; T5: independent textbook interpreter',
  'C07': 'T4: operation histories over the fact store, full read-back after every step, three-way',
  'C08': 'T0 (API names) + T4: load/register/assert/clear histories, three-way',
- 'C09': 'T2 on programs using call/N, once/1, findall/3, =, \\=',
+ 'C09': 'T2 (+ T5: independent textbook interpreter) on programs using call/N, once/1, findall/3, =, \\=, committed goals, after clear()',
  'C10': 'model lexer vs generated ANTLR lexer; model parser vs Earley recogniser built from prolog.g4 at run time; real compiler vs both on ~35 single-edit corruptions per program',
  'C11': 'T1 on boundary lexical forms and sizes; compile()+load of every accepted output; keys added = clause heads',
  'C12': 'T0 (API names) + T1; whitelist walk over the ast of the real output (with debug output in the stream); hostile queries',
@@ -27,9 +27,9 @@ TIE = {
  'C20': 'T2 with fact predicates replaced by registered Python generators (explicit/inferred/variadic, yield True/False, raising)',
 }
 PARTIAL = {
- 'C01': ' Body-level (Theorem A) and program-level correctness are proved for the clause activation the generated code performs, and that activation is proved observationally equal to the textbook activation (same recorded answers and ending) for well-formed engine states and queries over allocated variables, unless a run is cut off by the fuel or creates a cyclic term; well-formedness is proved to be an invariant of the API. The printed Python text is covered by Theorem B (a Lean semantics of the emitted Python subset; the printed def = the compiled predicate, for the model engine without hypotheses); that this semantics is CPython\'s is checked by tie T2p, not proved.',
+ 'C01': ' Body-level (Theorem A) and program-level correctness are proved for the clause activation the generated code performs, and that activation is proved observationally equal to the textbook activation (same recorded answers and ending) for well-formed engine states and queries over allocated variables, unless a run is cut off by the fuel or creates a cyclic term; well-formedness is proved to be an invariant of the API. The printed Python text is covered by Theorem B (a Lean semantics of the emitted Python subset; the printed def = the compiled predicate, for the model engine without hypotheses); that this semantics is CPython\'s is checked by ties T2p and T2q, not proved; that the reference semantics is standard Prolog is checked against an independent interpreter (T5), not proved.',
  'C02': ' Most-generality, completeness and soundness of failure are proved for the model (solutions of the heap at the yield = solutions of the starting heap that unify the terms); cyclic bindings and fuel exhaustion are outside; every generated case is also decided against an independent unifier.',
- 'C04': ' Partial: zig-zag stepping of suspended generators and threads are outside the push-style model; sampled only.',
+ 'C04': ' Interleaving within one engine is proved for the model: whatever the other suspended generators allocate and rebind between two answers of a query, it gives the answers it gives alone (a renaming-and-frame simulation over the whole engine). Partial: threads (preemption inside a step) are outside the push-style model; sampled only.',
  'C17': ' Proved for the model: the limit only cuts (a run that is not cut off is the identical run at every larger limit; the answers recorded with a smaller limit are a prefix of those recorded with a larger one). Partial: the model counts depth in calls, CPython in frames; where the prefix is cut is not predicted. Restoring the interpreter-wide limit is runtime behaviour, checked not proved.',
  'C18': ' Partial: hash seeds and processes are runtime; the proof obligation is the absence of order oracles in the source plus T1.',
 }
